@@ -194,6 +194,25 @@ func genUpgradeHistory(r *RNG, nBlocks int) []string {
 	default:
 		inner = genDidHistory(r.Fork(), nBlocks)
 	}
+	if kind == 0 {
+		// two owners with a topic of the SAME name, each with writers (and one more under a third owner without writers): data
+		// a per-name or per-prefix migration would mix up
+		var pre []string
+		for oi, ws := range [][]int{{2, 3}, {2}, {}} {
+			o := mkAcct(oi).Addr
+			pre = append(pre, fmt.Sprintf("TX %s %x", toks(feeDenom)+":1000", []byte(o)), fmt.Sprintf("M aol.CreateTopic %s %s %s", toks("same"), toks("d"), toks(o.String())))
+			for _, w := range ws {
+				pre = append(pre, fmt.Sprintf("M aol.AddWriter %s %s %s %s %s", toks("same"), toks("m"), toks(""), toks(mkAcct(w).Addr.String()), toks(o.String())))
+			}
+			pre = append(pre, "ENDTX")
+		}
+		for i, l := range inner {
+			if strings.HasPrefix(l, "BLOCK ") {
+				inner = append(inner[:i+1], append(pre, inner[i+1:]...)...)
+				break
+			}
+		}
+	}
 	name := app.Upgrades[len(app.Upgrades)-1].UpgradeName
 	last := true
 	if plans := runnablePlans(); len(plans) > 1 && kind != 1 && r.Chance(35) {
